@@ -74,6 +74,9 @@ pub fn run(a: &Args, out: &mut impl Write) {
     }
     for v in [false, true] {
         let b = amd::verif_bool_stub(v);
+        if b.is_empty() {
+            continue; // no stub emitter of the expected shape in this source (see shadow/build.rs)
+        }
         writeln!(out, "x86bool {} | {}", v as u8, hexb(&b)).unwrap();
     }
 }
